@@ -119,6 +119,7 @@ def objective(spec):
 
 # one names list, one value table and one value function for the whole process (format names_shared): the caller keeps the
 # same objects and changes the data in place between calls
+SHARED_DICT = {}
 SHARED_NAMES = []
 SHARED_VALUES = {}
 
@@ -150,6 +151,12 @@ def present(values, fmt):
         SHARED_VALUES.clear(); SHARED_VALUES.update(zip(nm, values))
         d = NamedValues(zip(nm, values)); d.names_list = list(nm)
         return SHARED_NAMES, shared_valueof, d
+    if fmt == "dict_shared":
+        # ONE dict object for the whole process, updated in place between calls and passed as `items`
+        nm = ["s%02d" % i for i in range(len(values))]
+        SHARED_DICT.clear(); SHARED_DICT.update(zip(nm, values))
+        d = NamedValues(zip(nm, values)); d.names_list = list(nm)
+        return SHARED_DICT, None, d
     if fmt == "names_rep":
         # one name per distinct VALUE (anti-correlated), so equal values are the same name repeated in the list
         distinct = sorted(set(values), reverse=True)
